@@ -4,6 +4,7 @@ import Dashu.Spec.Panics
 import Dashu.Model.Panic.Guards
 import Dashu.Model.Panic.GuardsMore
 import Dashu.Model.Panic.GuardsMore3
+import Dashu.Model.Panic.Guards5
 /-
   Driver of group `panic` (C16).  The MODEL of this property is the documentation
   (`Dashu.Spec.Panics.verdict`): for each case line the driver prints what the documentation promises —
@@ -53,8 +54,15 @@ def dispatch (W : Nat) (op0 : String) (args : List String) : Option String := do
   let out := match op, as with
     | .uTryPrims, [.int x] | .iTryPrims, [.int x] => showVerdict v ++ " " ++ fitsPattern x
     | _, _ => showVerdict v
+  -- size reservations (round 5): upper bounds, tied to the documentation by the two implications of `sizeConsistent`
+  let out := match Dashu.Model.Panic.sizeGuard5 W op as with
+    | none => out
+    | some g =>
+      if v = .unspecified ∨ Dashu.Model.Panic.sizeConsistent v g then out
+      else out ++ " !model-spec-mismatch reservation=" ++
+        (match g with | .ok () => "ok" | .error k => "panic_" ++ k.name)
   match (Dashu.Model.Panic.guardModel W op as <|> Dashu.Model.Panic.guardModelMore W op as <|>
-         Dashu.Model.Panic.guardModelMore3 W op as) with
+         Dashu.Model.Panic.guardModelMore3 W op as <|> Dashu.Model.Panic.guardModel5 W op as) with
   | none => some out
   | some g =>
     let gs := match g with
